@@ -32,7 +32,10 @@ Inductive case_C04 : Type :=
 | CIterRd (capacity low_mark : N) (data : list seg) (sched : list N) (start : N)
 (* the same with low_mark >= LOOKAHEAD under some schedule: by C04_iter_chunk_independent the schedule,
    capacity and low mark do not matter; the model is the iterator over the whole buffer *)
-| CIterWhole (data : list seg) (start : N).
+| CIterWhole (data : list seg) (start : N)
+(* position: a fresh iterator on the whole stream and, for every cut (offset c, j messages in front), a fresh
+   iterator with start index start + j on the suffix data[c..] *)
+| CSuffixes (storage : bool) (data : list seg) (start : N) (cuts : list (N * N)).
 
 (* two running sums as a cheap position-sensitive digest of a byte string *)
 Fixpoint digest_go (l : list N) (s1 s2 : N) : N * N :=
@@ -76,6 +79,19 @@ Definition o_iter {R} (x : res (list msg * ist * R)) : otree :=
   | OutOfFuel => T [L 8]
   end.
 
+(* the instance of C04_position_independent / C04_counters_do_not_matter at a cut the iterator passes with j >= 1
+   messages of framing f yielded: the rest of the whole run is the run of the iterator with only the latch set
+   on the suffix, indices advanced by start + j (always true; evaluated so that the correspondence runs the
+   theorem's formulation on every case) *)
+Definition position_instance (f : framing) (start : N) (d : list N) (c j : N) : bool :=
+  if j =? 0 then true
+  else
+    match run_iter start d, drain_fuel (S (length d)) (S (length d)) (latched f (ist_new 0)) (ndrop c d) with
+    | Ok (ms, _, _), Ok (ms', _, _) =>
+        otree_eqb (T (map o_msg (skipn (N.to_nat j) ms))) (T (map o_msg (map (msg_shift (start + j)) ms')))
+    | _, _ => true
+    end.
+
 Definition run_C04 (c : case_C04) : otree :=
   match c with
   | CTrace capacity low data sched ops =>
@@ -85,6 +101,12 @@ Definition run_C04 (c : case_C04) : otree :=
       end
   | CIterRd capacity low data sched start => o_iter (run_iter_rd start capacity low (expand data) sched)
   | CIterWhole data start => o_iter (run_iter start (expand data))
+  | CSuffixes storage data start cuts =>
+      let d := expand data in
+      let f := if storage then Storage else Serial in
+      T [o_iter (run_iter start d);
+         T (map (fun cj => T [L (fst cj); L (snd cj); o_iter (run_iter (start + snd cj) (ndrop (fst cj) d));
+                              ob (position_instance f start d (fst cj) (snd cj))]) cuts)]
   end.
 
 Definition agree_C04 := agree_det run_C04.
